@@ -39,6 +39,8 @@ pub struct Report {
     pub level: String,
     start: Instant,
     pub evaluations: AtomicU64,
+    /// while set, eval / nontrivial / add_distinct count nothing (a region whose oracle is switched off must not be reported as coverage)
+    pub muted: std::sync::atomic::AtomicBool,
     distinct: Vec<Mutex<HashSet<u64>>>,
     distinct_extra: AtomicU64,
     pub states: AtomicU64,
@@ -97,6 +99,7 @@ impl Report {
             level: level.to_string(),
             start: Instant::now(),
             evaluations: AtomicU64::new(0),
+            muted: std::sync::atomic::AtomicBool::new(false),
             distinct: (0..SHARDS).map(|_| Mutex::new(HashSet::new())).collect(),
             distinct_extra: AtomicU64::new(0),
             states: AtomicU64::new(0),
@@ -119,12 +122,24 @@ impl Report {
         self.start.elapsed().as_secs_f64()
     }
 
+    pub fn mute(&self, on: bool) {
+        self.muted.store(on, Ordering::SeqCst);
+    }
+    fn is_muted(&self) -> bool {
+        self.muted.load(Ordering::Relaxed)
+    }
     pub fn eval(&self, n: u64) {
+        if self.is_muted() {
+            return;
+        }
         self.evaluations.fetch_add(n, Ordering::Relaxed);
     }
 
     /// Count a distinct non-trivial case, identified by `key`.
     pub fn nontrivial(&self, key: &[u8]) {
+        if self.is_muted() {
+            return;
+        }
         let h = fnv(key);
         self.distinct[(h as usize) % SHARDS].lock().unwrap().insert(h);
     }
@@ -137,6 +152,9 @@ impl Report {
     }
     /// add cases whose distinctness is guaranteed by construction (e.g. unique states of a checker)
     pub fn add_distinct(&self, n: u64) {
+        if self.is_muted() {
+            return;
+        }
         self.distinct_extra.fetch_add(n, Ordering::Relaxed);
     }
 
